@@ -915,7 +915,7 @@ class BaseModel(ModelInterface):
                     subj_id: pd.DataFrame(  # columns names may be directly embedded in the dictionary after a `postprocess_model_estimation`
                         ests,
                         columns=None if isinstance(ests, dict) else self.features,
-                        index=timepoints[subj_id],
+                        index=np.atleast_1d(timepoints[subj_id]),
                     )
                     for subj_id, ests in estimations.items()
                 },
